@@ -18,6 +18,7 @@ import Jb.Proofs.Engine
 import Jb.Proofs.Total
 import Jb.Proofs.SynthTotal
 import Jb.Proofs.Supported
+import Jb.Proofs.EngineWFb
 
 set_option linter.unusedSectionVars false
 
@@ -178,5 +179,14 @@ theorem supported_example_accepted :
     Hts.parseVoice true Hts.SupportedEx.okBytes = .ok Hts.SupportedEx.okVoice ∧
       Hts.supportedVoice Hts.SupportedEx.okVoice = true :=
   ⟨Hts.SupportedEx.ok_accepted, Hts.SupportedEx.ok_supported⟩
+
+/-- the hypothesis `EngineWF` of `synth_total` has a computable form (`engineWFb`, `Jb/Model/EngineWFb.lean`): when the check
+    passes, synthesis is total and frame-exact. The driver evaluates the check on the stage inputs of every pipeline case
+    (class tag `wf` / `NOT-WF` in the evidence), so that the cases the correspondence runs are measured to lie inside the
+    theorem's hypothesis class. -/
+theorem wf_check_sound (fx : Fix) (c : Condition K) (inp : EngineIn K) (h : engineWFb c inp = true) (b : Bool) :
+    ∃ durs w, engineDurations c b inp = .ok durs ∧ durs.length = inp.duration.length ∧ (∀ x ∈ durs, 1 ≤ x) ∧
+      engineSynthesize fx c b inp = .ok w ∧ w.length = c.fperiod * durs.sum :=
+  engineWFb_total fx c inp h b
 
 end Jb.C01
